@@ -235,3 +235,5 @@ m("C11-revert-D28-half-added-node-stays", "C11", "actions/add_delete_node.py",
   "            self.tracks.graph.remove_node(self.node)\n            if self.pixels is not None:\n                self.tracks.set_pixels(self.pixels, 0)\n            raise", "            raise")
 m("C15-revert-D30-ndarray-position-refused-by-display-names-export", "C15", "import_export/csv/_export.py",
   "                    assert isinstance(value, (list, tuple, np.ndarray))", "                    assert isinstance(value, (list, tuple))")
+m("C07-revert-D31-updatenodeseg-keeps-callers-arrays", "C07", "actions/update_segmentation.py",
+  "        self.pixels = tuple(np.array(p) for p in pixels)", "        self.pixels = pixels")
